@@ -120,6 +120,9 @@ def _cube_constraint(ch):
     return [z3.Or(allowed)]
 
 
+CONFIRM = None          # optional predicate(tokens) -> bool: does the REAL parser confirm this witness?  (set per query by the worker)
+
+
 def _finish(ch, goal, timeout, what, extra_charts=()):
     """twin: base constraints alone must be satisfiable; real: base + defs + goal"""
     t0 = time.time()
@@ -129,7 +132,28 @@ def _finish(ch, goal, timeout, what, extra_charts=()):
     # vacuity twin: the constraints WITHOUT the negated property must be satisfiable (some string exists in the bounded space)
     rt, _, tsecs, _ = _solve(cons, min(timeout, 120))
     r, m, secs, _ = _solve(cons + [goal], timeout)
-    out = {"twin": rt, "twin_secs": round(tsecs, 2), "what": what, "L": ch.L, "alphabet": len(ch.alphabet), "cube": CUBE, "definitions": len(cons), "secs": round(secs, 2),
+    tried = 0
+    while r == 'sat' and CONFIRM is not None and tried < 60:
+        # the chart only knows the tables; a grammar action may still raise.  Prefer a witness the real parser confirms:
+        # unconfirmed witnesses are blocked and the solver is asked again (bounded)
+        toks = lrc.concrete_tokens(ch, m)
+        try:
+            good = CONFIRM(toks)
+        except Exception:
+            good = True
+        if good:
+            break
+        tried += 1
+        block = z3.Or([ch.tok[j] != m.eval(ch.tok[j], model_completion=True) for j in range(ch.L + 1)])
+        cons = cons + [block]
+        r2, m2, secs2, _ = _solve(cons + [goal], timeout)
+        secs += secs2
+        if r2 != 'sat':
+            if r2 == 'unsat':
+                r, m = 'unsat', None          # every witness was a table-level artefact refused by an action: nothing real to report
+            break
+        r, m = r2, m2
+    out = {"twin": rt, "unconfirmed_witnesses_blocked": tried, "twin_secs": round(tsecs, 2), "what": what, "L": ch.L, "alphabet": len(ch.alphabet), "cube": CUBE, "definitions": len(cons), "secs": round(secs, 2),
            "build_secs": None, "state": r}
     if r == 'unsat':
         out["verdict"] = "PROVED"
@@ -625,6 +649,20 @@ def q_rw_dot_pipe(cx, excludes):
         alts.append(z3.And(cond, z3.And(link)))
     goal = z3.And(z3.Or(alts) if alts else z3.BoolVal(False), z3.Xor(acca, accb))
     return _finish(a, goal, cx.timeout, "r.f(..) and r | f(..) differ in acceptance", extra_charts=(b,))
+
+
+def make_confirm(cx, q):
+    """witness filter for queries whose violation is visible on a single string"""
+    def confirm(toks):
+        out = real_outcome(cx.parser, toks)
+        if q == "soundness":
+            return out["kind"] == "accept"
+        if q == "completeness":
+            return out["kind"] in ("syntax", "other")
+        if q == "patterns":
+            return out["kind"] == "accept" and bool(tree_violations(out["tree"], toks))
+        return True
+    return confirm if q in ("soundness", "completeness", "patterns") else None
 
 
 QUERIES = {"rw_newline": q_rw_newline, "rw_comma_removed": q_rw_comma_removed, "rw_comma_added": q_rw_comma_added,
